@@ -523,6 +523,34 @@ func c06Files(c *Ctx) {
 								}
 							}
 						}
+						// names with characters that mean something to shells, globs, URLs and Windows paths — brackets, stars,
+						// question marks, braces, a tilde, percent escapes, a backslash — each next to a DECOY sibling that the
+						// name would select if it were taken as a pattern or unescaped
+						if data, err := os.ReadFile(tgt.path); err == nil {
+							for _, nm := range [][2]string{{"sample[1]", "sample1"}, {"reads*", "readsX"}, {"q?", "qq"}, {"reads[2", ""}, {"a{b,c}", "ab"}, {"~x", ""}, {"p%41", "pA"}, {"a\\b", "ab2"}, {"x#1", "x"}, {"-", ""}, {"a b;c&d", ""}} {
+								p := filepath.Join(sub, nm[0]+tgt.ext)
+								if os.WriteFile(p, data, 0o644) != nil {
+									continue
+								}
+								if nm[1] != "" {
+									os.WriteFile(filepath.Join(sub, nm[1]+tgt.ext), []byte("a decoy: not the records of the file\n"), 0o644)
+								}
+								names[fmt.Sprintf("a file named %q (next to a decoy named %q)", nm[0]+tgt.ext, nm[1])] = p
+							}
+						}
+						// a path that does NOT exist, next to a compressed file of the same name: File must yield an error (it
+						// is asked for that path, not for one like it)
+						if tgt.path == plain {
+							ghost := filepath.Join(sub, "onlygz"+cd.ext)
+							if data, err := os.ReadFile(gz); err == nil && os.WriteFile(ghost+".gz", data, 0o644) == nil {
+								got, _ := collect(cd.file(ghost), len(x)+8)
+								if len(got) != 1 || !got[0].Err {
+									k.Input("path", ghost)
+									k.Failf("file-missing", "%s.File on a path that does not exist (a file with the same name plus \".gz\" does) must yield exactly one error; got %s", f, traceString(got))
+								}
+								k.Count("file_missing_with_gz_sibling", 1)
+							}
+						}
 						// a named pipe that another part of the program (here: a goroutine) writes the same bytes into — what a
 						// shell's <(zcat x.gz) or a "mkfifo" hand-over gives: a path that is not a regular file (its size is 0)
 						if fifo := filepath.Join(sub, "pipe"+tgt.ext); k.Idx%4 == 0 && syscall.Mkfifo(fifo, 0o600) == nil {
